@@ -24,6 +24,10 @@ def run(ctx):
     games.append((posgen.START, rep.split()))
     games.append((posgen.START, ("e2e4 e7e5 " + "e1e2 e8e7 e2e1 e7e8 " * 3).split()))
     games.append(("4k3/8/8/8/8/8/8/R3K3 w Q - 0 1", ("a1a2 e8e7 a2a1 e7e8 " * 3).split()))
+    # scripted games of several hundred plies: pawn steps interleaved with shuffle cycles, so repetitions occur at every game length
+    longg = posgen.long_shuffle_games(ctx.rng, 25 if q else 400)
+    games += longg
+    ctx.notes['long_games'] = {'count': len(longg), 'max_plies': max(len(m) for _, m in longg)}
     hist = [0] * 7
 
     def tally(x):
